@@ -244,9 +244,7 @@ def _swap_pair(st, tab):
     a, b = pair(t.slice), pair(v.slice)
     if a is None or b is None:
         return None
-    if norm(a[0]) == norm(b[1]) and norm(a[1]) == norm(b[0]):
-        return (a[0], a[1])
-    raise BlockError('row permutation %s is not a swap' % norm(st))
+    return (a, b)
 
 
 def _is_view_swap(st, tab):
@@ -283,8 +281,11 @@ def run_block(block, env, rows, tab, pivot_var, obs_label='OBS'):
                 continue
             sp = _swap_pair(st, tab)
             if sp is not None:
-                a, b = ev(sp[0], env), ev(sp[1], env)
-                rows[a], rows[b] = rows[b], rows[a]
+                # fancy-index assignment copies: rows[targets] = old rows[sources], simultaneously
+                tg = [ev(e, env) for e in sp[0]]
+                src = [rows[ev(e, env)] for e in sp[1]]
+                for ti, sv in zip(tg, src):
+                    rows[ti] = sv
                 continue
             if isinstance(st, ast.AugAssign) and isinstance(st.target, ast.Name):
                 if st.target.id in env and isinstance(env[st.target.id], int):
@@ -303,13 +304,16 @@ def run_block(block, env, rows, tab, pivot_var, obs_label='OBS'):
                     try:
                         env[t.id] = ev(v, env)
                     except Undecidable:
-                        env.pop(t.id, None)
+                        pass      # not index arithmetic (tensor bookkeeping): binding kept
                     continue
                 if isinstance(t, ast.Subscript) and isinstance(t.value, ast.Name):
                     if t.value.id == tab and not isinstance(t.slice, (ast.Tuple, ast.Slice)):
                         try:
                             ti = ev(t.slice, env)
                         except Undecidable as e:
+                            inner = v.left if isinstance(v, ast.BinOp) and isinstance(v.op, ast.Mod) else v
+                            if isinstance(inner, ast.BinOp) and isinstance(inner.op, ast.Add):
+                                continue     # vectorised row *update* (product with the pivot): no row moves
                             raise BlockError('row index %s: %s' % (norm(t.slice), e))
                         if isinstance(v, ast.Subscript) and isinstance(v.value, ast.Name) and v.value.id == tab:
                             rows[ti] = rows[ev(v.slice, env)]
